@@ -47,6 +47,20 @@ Definition bytes_of (l : list chunk) : string := sconcat (map chunk_bytes l).
 
 Record opts := { validating : bool; pretty : bool }.
 
+(* the four places where InsertBuilder.innerWriteSQL reads sb.opts.prettyPrint: what is written
+   without / with pretty printing.  Both are blanks or newlines by construction. *)
+Inductive pws := PwComma | PwBreak | PwRow | PwSet.
+Definition nl1 : string := String "010"%char EmptyString.
+Definition pws_plain (k : pws) : string :=
+  match k with PwComma => "" | PwBreak => " " | PwRow => "" | PwSet => " " end%string.
+Definition pws_pretty (k : pws) : string :=
+  match k with
+  | PwComma => " "
+  | PwBreak => nl1
+  | PwRow => append nl1 "       "
+  | PwSet => append nl1 "    "
+  end%string.
+
 Section Writer.
   Variable V : Type.                      (* argument values: abstract, no equality *)
 
@@ -61,7 +75,7 @@ Section Writer.
   | WType (s : string)                    (* expType.WriteSQL *)
   | WErr (k : ekind)                      (* sb.AddError(sentinel) *)
   | WErrV (k : ekind)                     (* if sb.Validating() { sb.AddError(sentinel) } *)
-  | WPretty (plain prettys : string)      (* if sb.opts.prettyPrint { prettys } else { plain } *)
+  | WPretty (k : pws)                     (* if sb.opts.prettyPrint { pws_pretty k } else { pws_plain k } *)
   | WSeq (l : list W)
   | WPanic.                               (* a nil interface is called / an index is out of range *)
 
@@ -106,7 +120,7 @@ Section Writer.
         else Some (emit (CType t) s)
     | WErr k => Some (add_err (k, EmptyString) s)
     | WErrV k => if validating o then Some (add_err (k, EmptyString) s) else Some s
-    | WPretty a b => Some (emit (CWs (if pretty o then b else a)) s)
+    | WPretty k => Some (emit (CWs (if pretty o then pws_pretty k else pws_plain k)) s)
     | WSeq l =>
         (fix go (l : list W) (s : sb) {struct l} : option sb :=
            match l with
